@@ -163,7 +163,8 @@ class History:
             extra = self.r.randint(1, 2)                                              # longer than the rank: legal
             self.lines.append('write %s ; %s ; %s' % (fmt(off + [self.r.randint(0, 9)] * extra), fmt(cnt + [1] * extra), self.vals(n)))
         else:
-            self.lines.append('write %s ; %s ; %s' % (fmt(off), fmt(cnt), self.vals(n)))
+            verb = 'rawwrite' if self.r.random() < 0.15 else 'write'      # setDataDirect: the same request without ioWrite
+            self.lines.append('%s %s ; %s ; %s' % (verb, fmt(off), fmt(cnt), self.vals(n)))
             if cnt == self.shape and not self.ro:
                 self.unwritten = False
         self.kinds.add('write')
@@ -249,7 +250,12 @@ class History:
         k = r.random()
         if k < 0.40:
             deg = r.choice([0, 1, 1, 2, 3])
-            self.lines.append('poly ' + ' '.join(self.coeff() for _ in range(deg + 1)))
+            cs = ' '.join(self.coeff() for _ in range(deg + 1))
+            if r.random() < 0.35:        # the overload with an explicit compression of the coefficient dataset
+                self.lines.append('polyc %s %s' % (r.choice(['none', 'deflate', 'auto']), cs))
+                self.kinds.add('polyc')
+            else:
+                self.lines.append('poly ' + cs)
             if not self.ro:
                 self.npoly = deg + 1
         elif k < 0.45:
@@ -624,6 +630,94 @@ def typed_cases(rnd, per_combo):
     return out
 
 
+# ---- further public routes (notes/route-audit.md, section C01) ---------------------------------------------------
+MORE_ROUTES = {
+    'tcreate': 'template Block::createDataArray(name, type, const T &data, DataType data_type, Compression) - create and fill',
+    'polyc': 'DataArray::polynomCoefficients(coefficients, compression) - explicit compression',
+    'rawwrite': 'DataArray::setDataDirect(dtype, data, count, offset)',
+    'ndidx': 'NDArray::get<T>(const NDSize &) / sub2index (filled through set<T>(size_t))',
+    'ndset': 'NDArray::set<T>(const NDSize &, value), read through get<T>(size_t)',
+    'applypoly': 'util::applyPolynomial called directly (separate output and output == input; empty coefficients)',
+    'str2dt': 'string_to_data_type (printed with data_type_to_string)',
+}
+CONVERTIBLE = lambda elem, stored: stored == elem or (elem not in ('String',) and stored not in ('String', 'Bool'))
+
+
+def create_fill_case(rnd, elem, stored, route, compr):
+    """the create-and-fill template: container of `elem`, stored as `stored` (Nothing = the element type)"""
+    g = Gen(rnd)
+    if route == 'sc':
+        ext = []
+    elif route == 'c1':
+        ext = [5]
+    elif route in ('vec', 'val'):
+        ext = [rnd.choice([1, 2, 3, 7])]
+    else:
+        ext = [rnd.choice([1, 2, 3]) for _ in range(rnd.choice([1, 2, 3]))]
+    n = 1 if route == 'sc' else prod(ext)
+    real = elem if stored == 'Nothing' else stored
+    lines = ['tcreate %s %s %s %s %s ; %s' % (elem, stored, compr, route, fmt(ext), g.values(elem, n, False)), 'has']
+    if route != 'sc':
+        lines += ['shape', 'read ; %s' % fmt(ext), 'raw %s ; %s' % (fmt([0] * len(ext)), fmt(ext))]
+        ok = CONVERTIBLE(elem, real)
+        if ok and real != 'String':
+            lines += ['readas %s ; %s' % (rnd.choice(NUMERIC), fmt(ext))]
+        # the array must be a normal array afterwards
+        cnt = list(ext)
+        cnt[0] = 1
+        lines += ['append 0 %s ; %s' % (fmt(cnt), g.values(real, prod(cnt), False)), 'shape', 'reopen ro', 'has',
+                  'read ; %s' % fmt([ext[0] + 1] + ext[1:])]
+    return Case(lines, 'route-tcreate')
+
+
+def create_fill_cases(rnd, reps):
+    out = []
+    for _ in range(reps):
+        for elem in TYPED_DT:
+            routes = ['ma', 'nd', 'val', 'c1'] + (['vec'] if elem != 'Bool' else [])
+            # no override, the same type spelled out, a convertible other type, types nothing converts to
+            for stored in ['Nothing', elem, rnd.choice([d for d in NUMERIC if d != elem]), 'String', 'Bool']:
+                out.append(create_fill_case(rnd, elem, stored, rnd.choice(routes), rnd.choice(COMPR)))
+            out.append(create_fill_case(rnd, elem, rnd.choice(['Nothing', 'Double']), 'sc', 'none'))      # rank 0: refused, nothing created
+        for stored in ['Nothing', 'String', 'Double', 'Int32', 'Bool']:
+            out.append(create_fill_case(rnd, 'String', stored, 'vec', rnd.choice(COMPR)))
+    return out
+
+
+def stateless_route_cases(rnd, reps):
+    out = []
+    g = Gen(rnd)
+    for _ in range(reps):
+        for dt in TYPED_DT:
+            sh = [rnd.choice([1, 2, 3, 4]) for _ in range(rnd.choice([1, 2, 3]))]
+            n = prod(sh)
+            vals = g.values(dt, n, False)
+            inside = [rnd.randrange(e) for e in sh]
+            edge = list(inside)
+            a = rnd.randrange(len(sh))
+            edge[a] = sh[a]                                   # outside the box; the position may still be inside the buffer
+            far = [e + 3 for e in sh]
+            for idx in (inside, edge, far, inside[:-1], inside + [0], [e - 1 for e in sh], [0] * len(sh)):
+                out.append(Case(['ndidx %s %s ; %s ; %s' % (dt, fmt(sh), vals, fmt(idx))], 'route-ndidx'))
+            for idx in (inside, edge, far):
+                out.append(Case(['ndset %s %s ; %s ; %s ; %s' % (dt, fmt(sh), vals, fmt(idx), g.value(dt, False))], 'route-ndset'))
+        h = History(rnd, 'Double', 'none', [1], True)
+        for alias in (0, 1):
+            for deg in (-1, 0, 1, 2, 3, 5):
+                cs = ' '.join(h.coeff() for _ in range(deg + 1))
+                xs = ' '.join(g.value('Double', True) for _ in range(rnd.choice([0, 1, 3, 6])))
+                out.append(Case(['applypoly %d %s ; %s ; %s' % (alias, h.coeff(), cs, xs)], 'route-applypoly'))
+        names = ['Bool', 'Char', 'Float', 'Double', 'Int8', 'Int16', 'Int32', 'Int64', 'UInt8', 'UInt16', 'UInt32', 'UInt64', 'String',
+                 'Nothing', 'Opaque', 'single', 'Single', 'SINGLE']
+        for nm in names:
+            for v in (nm, nm.lower(), nm.upper(), nm + ' ', ' ' + nm, nm[:-1], nm + 'x',
+                      ''.join(c.upper() if rnd.random() < 0.5 else c.lower() for c in nm)):
+                out.append(Case(['str2dt s:' + v.encode().hex()], 'route-str2dt'))
+        for v in ('', 'int', 'uint', 'int128', 'float64', 'str', 'd\xc3\x96uble', 'DOUBLE\x00'.rstrip('\x00'), 'Int8\n'):
+            out.append(Case(['str2dt s:' + v.encode('latin-1').hex()], 'route-str2dt'))
+    return out
+
+
 def fixed_cases():
     """hand-made histories that pin every conversion boundary and the documented corner cases"""
     c = []
@@ -752,6 +846,10 @@ class C01(Prop):
             cases += string_unwritten_cases(rnd, nstr)
         cases += short_arg_cases(random.Random(seed))
         cases += typed_cases(random.Random(seed * 31 + 7), 1 if (tier == 'quick' and scale == 1) else 6)
+        cases += create_fill_cases(random.Random(seed * 37 + 11), 1 if (tier == 'quick' and scale == 1) else 8)
+        cases += stateless_route_cases(random.Random(seed * 41 + 13), 1 if (tier == 'quick' and scale == 1) else 6)
+        # how many calls each further route got (goes into the evidence)
+        self._route_calls = {k: sum(1 for c in cases for l in c.lines if l.split(' ', 1)[0] == k) for k in MORE_ROUTES}
         if os.environ.get('NIXV_C01_XPROBE') == '1':
             cases += xprobe_cases()
         return cases
@@ -764,6 +862,8 @@ class C01(Prop):
                 'Int16..UInt32/Float/Double only next to a zero extent (tag typed-%s-huge)' % r if r in ('ma', 'nd') else
                 'Bool/Int8/UInt8 (c1: N=300, c2: [260][2], vec/val: up to 300 elements)' if r != 'sc' else 'not applicable (no extent)'}
             for r in ROUTES}
+        ctx['ev']['further_public_routes'] = {k: {'what': MORE_ROUTES[k], 'calls': getattr(self, '_route_calls', {}).get(k, 0)}
+                                              for k in MORE_ROUTES}
         ctx['ev']['typed_container_routes_not_covered'] = ['std::array (the library has no data_traits for it)',
                                                            'boost::multi_array<std::string,N> and String through c1/c2/val/nd',
                                                            'Int16 extents >= 32768 WITH elements (model cost); covered only next to a zero extent']
@@ -776,6 +876,12 @@ class C01(Prop):
         k = next((i for i, (a, b) in enumerate(zip(impl, spec)) if b != 'ANY' and not self.compare(a, b)), 0)
         op = case.lines[k].split(' ')[0]
         a, b = impl[k], spec[k]
+        if case.tag == 'route-tcreate' and not a.startswith('CRASH'):
+            return {'kind': 'create-and-fill leaves the array behind when the write fails (or builds a wrong request)',
+                    'route': 'template Block::createDataArray(name, type, data, data_type, compression)',
+                    'write_refused': impl[0].startswith('ERR')}
+        if case.tag.startswith('route-'):
+            return {'kind': 'public route answers differently from the model', 'route': case.tag[6:], 'op': op}
         if case.tag.startswith('typed-'):
             route = case.tag.split('-')[1]
             return {'kind': 'typed container route builds a wrong request', 'route': route, 'container': ROUTES[route].split(' (')[0]}
